@@ -533,7 +533,10 @@ def trace_inclusion(ctx, jobs, label):
 
 
 def replay(ctx, path):
-    r = json.load(open(path))
+    import replaylib
+    r = replaylib.load(ctx, path)
+    if "no_longer_checks" in r and "ops" not in r and "op" not in r:
+        return replaylib.obligations("C07", run, r, path)
     d = os.path.join(vlib.CACHE, "c07-replay")
     os.makedirs(d, exist_ok=True)
     tsan = "ops" in r
@@ -558,8 +561,7 @@ def replay(ctx, path):
             if reps:
                 for key, summary, text in reps:
                     print(summary)
-                print("VIOLATION property=C07 replay=%s" % path)
-                return 1
+                return replaylib.failed(ctx, "C07", r, path, keys=[key for key, _, _ in reps])
         print("replay passes (no TSan report in 20 attempts)")
         return 0
     line = restore(r.get("file_name") or "replay", r["file_b64"], r["op"].split("\n")[0])
